@@ -76,6 +76,7 @@ def classes_for(S, type_name: str, key: str, node: dict) -> list[VClass]:
                 add(VClass("STR_PLAIN", plain, "QUOTED"))
                 if a.sub == "PLAIN":
                     add(VClass("STR_PADDED", padded, "QUOTED"))
+                    add(VClass("STR_EMPTY", lambda q: "", "QUOTED"))
             elif a.sub == "HEX":
                 add(VClass("STR_HEX", lambda q: hexv(), "QUOTED"))
             elif a.sub == "BIND":
